@@ -4,7 +4,7 @@ import "sort"
 
 // GlobalAssumptions are listed in every evidence file.
 var GlobalAssumptions = []string{
-	"A-seq: sequential reasoning; no interference from other goroutines during a verified call (go statements are skipped, channel operations have ghost semantics)",
+	"A-seq: sequential reasoning; no interference from other goroutines during a verified call (a go statement inside a function under contract is a failing obligation; channel operations have ghost semantics: closed is monotone and may be set by the environment between calls)",
 	"A-partial: partial correctness; panics are obligations; termination only where a loop has a decreases clause",
 	"A-mem: slice headers read from symbolic state are well-formed (0<=len<=cap<=2^56, 0<=off<=2^56); distinct allocations are disjoint regions",
 	"A-alias: byte regions are identified by (region id, offset); a caller-supplied slice may alias another only if a contract says nothing to the contrary (aliasing is modelled, not assumed away, except where a requires clause states disjointness)",
@@ -13,6 +13,8 @@ var GlobalAssumptions = []string{
 	"A-gvc: the VC generator written for this task (gvc) implements Go's integer, slice and struct semantics correctly (checked by must-fail mutants, not proved)",
 	"integers are exact bitvectors of their Go width: nothing is treated as mathematical",
 	"assembly (mask_amd64.s, mask_arm64.s) and the js/wasm build are outside the verified text",
+	"A-uf: uninterpreted and opaque spec functions (and contract-less functions of pure library packages) are functions of their flattened arguments (a slice is region, offset, length); the contents of slices passed to them are not modified between uses (frame obligations of the functions involved)",
+	"A-ghost: ghost state attached to library objects (byte streams of bufio readers/writers, response-writer status, header values Set, request handed to the HTTP client) changes only as the assumed contracts of the library functions say",
 }
 
 // TrustedBase reports assumed contracts applied while generating obligations and
